@@ -113,23 +113,22 @@ mk('str_concat_cmp', ['s$', 't$'],
 mk('str_len_asc', ['s$'],
    [P(F('LEN', var('s$'))), P(F('ASC', var('s$')))], family='string')
 mk('str_left', ['s$', 'n%'], [P(F('LEFT$', var('s$'), var('n%')))],
-   family='string', strlen=3, slow=True)
+   pre='-2 <= x1 <= 6', family='string', strlen=4)
 mk('str_right', ['s$', 'n%'], [P(F('RIGHT$', var('s$'), var('n%')))],
-   family='string')
+   pre='-2 <= x1 <= 6', family='string')
 mk('str_mid2', ['s$', 'n%'], [P(F('MID$', var('s$'), var('n%')))],
-   family='string')
+   pre='-2 <= x1 <= 6', family='string')
 mk('str_mid3', ['s$', 'n%', 'm%'],
-   [P(F('MID$', var('s$'), var('n%'), var('m%')))], family='string', strlen=3, slow=True)
+   [P(F('MID$', var('s$'), var('n%'), var('m%')))], pre='-2 <= x1 <= 6 and -2 <= x2 <= 6', family='string', strlen=4)
 mk('str_instr2', ['s$', 't$'], [P(F('INSTR', var('s$'), var('t$')))],
    pre='len(x1) >= 1', family='string')
 mk('str_instr3', ['n%', 's$', 't$'],
    [P(F('INSTR', var('n%'), var('s$'), var('t$')))],
-   pre='len(x2) >= 1', family='string', strlen=3, slow=True)
-mk('str_trim_case', ['s$'],
-   [P(F('LTRIM$', var('s$')), ';', S('|'), ';', F('RTRIM$', var('s$')), ';',
-      S('|'), ';', F('UCASE$', var('s$')), ';', S('|'), ';',
-      F('LCASE$', var('s$')))],
-   family='string', strlen=3, slow=True)
+   pre='(-1 <= x0 <= 6) and len(x2) >= 1', family='string', strlen=4)
+for _fn in ('LTRIM$', 'RTRIM$', 'UCASE$', 'LCASE$'):
+    mk('str_' + _fn[:-1].lower(), ['s$'],
+       [P(S('['), ';', F(_fn, var('s$')), ';', S(']'))], family='string',
+       strlen=3)
 mk('str_space', ['n%'], [P(F('LEN', F('SPACE$', var('n%'))))],
    pre='x0 <= 40', family='string')
 mk('str_string_s', ['n%', 's$'],
